@@ -20,6 +20,8 @@ use jjv::Rng;
 use pollster::FutureExt as _;
 
 /// Settings with a fixed commit timestamp so that commit ids depend on the case only.
+/// (Operation timestamps stay real: concurrent operations are merged in the order of their
+/// end times, so callers commit them a few milliseconds apart.)
 pub fn settings() -> UserSettings {
     let mut config = testutils::base_user_config();
     config.add_layer(
